@@ -548,7 +548,7 @@ var fixedSnippets = func() []snippet {
 		`1(2)`, `"a"()`, `nil()`, `[1]()`, `{}()`, `x := {}; x.y()`, `nil.x`, `nil[0]`, `1.x`, `true[0]`, `[][0]`, `[1][-2]`, `[1][1:0]`, `[1][5:]`, `"abc"[10]`, `"abc"[-10:]`, `{}["x"]`, `{1: 2}[1]`, `{[1]: 2}`, `{{}: 1}`, `{nil: 1}`, `{1.5: 1}`, `{true: 1}[true]`, `{func(){}: 1}`, `{1, [2]}`, `{1, {2}}`,
 		`try()`, `try(1)`, `try(func() { error("x") })`, `try(func() { error("x") }, func(e) { error("y") })`, `try(func() { error("x") }, 1)`, `try(func() { 1/0 })`, `try(func() { [][1] })`, `try(try)`, `try(func() { try(func() { error("a") }, func(e) { error(e) }) }, func(e) { return e })`, `error()`, `error(1)`, `error(error)`, `error("%d")`, `error("%!")`, `error("%s %s", 1)`, `error(errors.new("x"))`,
 		`len()`, `len(1, 2)`, `len(len)`, `print(print)`, `type()`, `string()`, `int("x")`, `int("99999999999999999999")`, `int(1e300)`, `int(math.inf())`, `float("nan")`, `byte(256)`, `byte(-1)`, `chr(-1)`, `chr(1114112)`, `ord("")`, `ord("ab")`, `list(1)`, `set([[1]])`, `map([[1]])`, `map([[1, 2, 3]])`, `sorted([1, "a"])`, `sorted([nil, 1])`, `sorted([func(){}, 1])`, `sorted([[1], [2]])`, `sorted([{}, {}])`, `sorted([1, 2], nil)`, `sorted([1, 2], func() {})`, `sorted([1, 2], func(a, b) { error("x") })`, `sorted([3, 1, 2], func(a, b) { return "x" })`, `reversed(1)`, `any(1)`, `all(nil)`, `min()`, `max([])`, `sum(["a"])`, `chunk([1], 0)`, `chunk([1], -1)`, `range(1)`, `iter(nil)`, `call()`, `call(1)`, `call(call, call)`, `getattr(1, "x")`, `getattr(nil, nil)`, `hash()`, `hash("x", "nope")`, `sprintf()`, `sprintf(1)`, `sprintf("%d", "x")`, `sprintf("%*d", 1)`, `sprintf("%[5]d", 1)`, `sprintf("%!")`, `sprintf("%v %v")`, `make()`, `make(1)`, `chan(-1)`, `chan("x")`, `close(1)`, `close(nil)`, `delete(1, 2)`, `assert(false)`, `assert(false, 1)`, `is_hashable(func(){})`, `coalesce()`, `decode("x", "nope")`, `encode(1, 1)`, `encode(func(){}, "json")`, `decode("\xff", "base64")`, `decode("{", "json")`, `codecs`, `keys(1)`, `float_slice(["a"])`, `byte_slice([256])`, `byte_slice([-1])`, `buffer(1)`, `unpack`, `jmespath`, `os.exit(3)`, `os.exit("x")`, `os.exit(errors.new("e"))`, `exit(1); print(2)`, `os.exit()`, `os.exit(0); 5`,
-		`x := [1,2,3]; x[1:2] = 5`, `x := "abc"; x[0] = "z"`, `x := {1}; x[0]`, `x := [1]; x.append(x); x`, `m := {}; m["m"] = m; m`, `s := {1}; s.add(s)`, `l := []; s := {1}; l.append(s); s.add(l)`, `l := [1]; l.extend(l); l`, `l := [1]; m := {"l": l}; l.append(m); string(m)`,
+		`x := [1,2,3]; x[1:2] = 5`, `x := "abc"; x[0] = "z"`, `x := {1}; x[0]`, `x := [1]; x.append(x); len(x)`, `m := {}; m["m"] = m; len(m)`, `s := {1}; s.add(s)`, `l := []; s := {1}; l.append(s); s.add(l)`, `l := [1]; l.extend(l); l`, `l := [1]; m := {"l": l}; l.append(m); string(m)`,
 		`1 / 0`, `1 % 0`, `1.0 / 0`, `1 // 2`, `-9223372036854775807 - 2`, `9223372036854775807 + 1`, `(-9223372036854775807 - 1) / -1`, `(-9223372036854775807 - 1) % -1`, `-(-9223372036854775807 - 1)`, `2 ** 63`, `2 ** 64`, `2 ** -1`, `0 ** -1`, `1 << 63`, `1 << 64`, `1 << 1000`, `1 << -1`, `1 >> -1`, `-1 >> 70`, `"a" * 3`, `"a" * -1`, `[1] * 3`, `[1] * -1`, `[1] * 9223372036854775807`, `"ab" * 4611686018427387904`, `3 * "a"`, `"a" + 1`, `1 + "a"`, `[1] + 1`, `{} + {}`, `{1} + {2}`, `nil + nil`, `true + true`, `-"a"`, `-nil`, `-[1]`, `!nil`, `![]`, `1 < "a"`, `nil < nil`, `[1] < [2]`, `{} < {}`, `true < false`, `1 == 1.0`, `"a" in 1`, `1 in "a"`, `1 in nil`, `nil in nil`, `[1] in {}`, `{} in {}`,
 	)
 	return out
@@ -645,10 +645,10 @@ var deepShapes = []deepShape{
 	{Name: "for-cond", Gen: func(d int) string { return "x := true; " + rep("for x { ", d) + "x = false" + rep(" }", d) }, Kind: "quad"},
 	{Name: "switch", Gen: func(d int) string { return rep("switch 1 { case 1: ", d) + "1" + rep(" }", d) }, Kind: "quad"},
 	{Name: "switch-subject", Gen: func(d int) string { return rep("switch ", d) + "1" + rep(" { default: 1 }", d) }},
-	{Name: "attr-chain", Gen: func(d int) string { return `x := {}; x["y"] = x; x` + rep(".y", d) }},
+	{Name: "attr-chain", Gen: func(d int) string { return `x := {}; x["y"] = x; x` + rep(".y", d) + "; 1" }},
 	{Name: "call-chain", Gen: func(d int) string { return "func f() { return f }; f" + rep("()", d) }},
 	{Name: "method-chain", Gen: func(d int) string { return "x := [1]; x" + rep(".copy()", d) }},
-	{Name: "index-chain", Gen: func(d int) string { return "a := [1]; a[0] = a; a" + rep("[0]", d) }},
+	{Name: "index-chain", Gen: func(d int) string { return "a := [1]; a[0] = a; a" + rep("[0]", d) + "; 1" }},
 	{Name: "index-nest", Gen: func(d int) string { return "a := [0]; " + rep("a[", d) + "0" + rep("]", d) }},
 	{Name: "slice-nest", Gen: func(d int) string { return "a := [0]; " + rep("a[", d) + "0" + rep(":]", d) }},
 	{Name: "call-nest", Gen: func(d int) string { return "f := func(x) { return x }; " + rep("f(", d) + "1" + rep(")", d) }},
